@@ -3554,6 +3554,10 @@ class DecVar(Vars):
 
     def adapt(self, to):
 
+        if self.dro_model.var_ev_list is not None:
+            raise SyntaxError('Adaptation must be defined before ' +
+                              'the model is formulated.')
+
         if isinstance(to, (Scen, Sized, int)):
             self.evtadapt(to)
         elif isinstance(to, (RandVar, RandVarSub)):
@@ -3772,6 +3776,10 @@ class DecVarSub(VarSub):
             return pick(values)
 
     def adapt(self, rvars):
+
+        if self.dro_model.var_ev_list is not None:
+            raise SyntaxError('Adaptation must be defined before ' +
+                              'the model is formulated.')
 
         self.fixed = False
         if not isinstance(rvars, (RandVar, RandVarSub)):
